@@ -45,20 +45,30 @@ func (e *Engine) loModel(fr *frame, ins ssa.Instruction, name string, fn *ssa.Fu
 		et := under(mi.X.Type()).(*types.Slice).Elem()
 		n := sv.Len
 		P := e.sc.declare("sortP", arrSort(SI64, SI64))
+		e.lastSortP = P
 		Q := e.sc.declare("sortQ", arrSort(SI64, SI64))
 		i := e.sc.freshName("si")
 		inr := func(x string) string { return and(app("bvsle", bvLit(0, 64), x), app("bvslt", x, n)) }
-		e.sc.add(fmt.Sprintf("(assert (forall ((%s %s)) %s))", i, SI64, implies(inr(i), and(inr(sel(P, i)), eq(sel(Q, sel(P, i)), i), inr(sel(Q, i)), eq(sel(P, sel(Q, i)), i)))))
+		e.sc.addTagged("sort", fmt.Sprintf("(assert (forall ((%s %s)) %s))", i, SI64, implies(inr(i), and(inr(sel(P, i)), eq(sel(Q, sel(P, i)), i), inr(sel(Q, i)), eq(sel(P, sel(Q, i)), i)))))
 		e.forLeaves(types.NewSlice(et), []pathElem{{field: -1}}, et, func(path []pathElem, suffix, leaf string, lt types.Type) {
 			c := e.comp(types.NewSlice(et), path, suffix, leaf)
 			cur := e.heapGet(heap, c)
 			old := sel(cur, sv.Arr)
 			nw := e.sc.declare("sorted_"+c.key, arrSort(SI64, leaf))
+			// inside the sorted range (indices written as off+r, the way code and specifications
+			// index the slice): new[off+r] == old[off+P[r]]; outside: unchanged
+			r := e.sc.freshName("sr")
+			at := e.sc.addS(sv.Off, r)
+			e.sc.addTagged("sort", fmt.Sprintf("(assert (forall ((%s %s)) (! %s :pattern (%s))))", r, SI64,
+				implies(inr(r), eq(sel(nw, at), sel(old, app("bvadd", sv.Off, sel(P, r))))), sel(nw, at)))
 			j := e.sc.freshName("sj")
-			rel := app("bvsub", j, sv.Off)
-			body := eq(sel(nw, j), ite(inr(rel), sel(old, app("bvadd", sv.Off, sel(P, rel))), sel(old, j)))
-			e.sc.add(fmt.Sprintf("(assert (forall ((%s %s)) %s))", j, SI64, body))
-			heap[c.key] = e.sc.define("H_"+c.key, c.sort, sto(cur, sv.Arr, ite(e.guard, nw, old)))
+			out := or(app("bvslt", j, sv.Off), app("bvsge", j, app("bvadd", sv.Off, n)))
+			e.sc.addTagged("sort", fmt.Sprintf("(assert (forall ((%s %s)) (! %s :pattern (%s))))", j, SI64, implies(out, eq(sel(nw, j), sel(old, j))), sel(nw, j)))
+			// nw is the content after the call; on paths that do not reach the call it is the old content
+			if e.guard != "true" {
+				e.sc.assume(implies(not(e.guard), eq(nw, old)))
+			}
+			heap[c.key] = e.sc.define("H_"+c.key, c.sort, sto(cur, sv.Arr, nw))
 			if !e.isFresh(sv.Arr) {
 				e.dirty[c.key] = true
 			}
@@ -68,13 +78,10 @@ func (e *Engine) loModel(fr *frame, ins ssa.Instruction, name string, fn *ssa.Fu
 		b := e.sc.freshName("sb")
 		e.sc.binders = append(e.sc.binders, binder{a, SI64}, binder{b, SI64})
 		lessBA := e.scalar(callCB(fv, []Val{Sc{b, SI64}, Sc{a, SI64}})).T
-		lessAB := e.scalar(callCB(fv, []Val{Sc{a, SI64}, Sc{b, SI64}})).T
 		e.sc.binders = e.sc.binders[:len(e.sc.binders)-2]
 		rng := and(app("bvsle", bvLit(0, 64), a), app("bvslt", a, b), app("bvslt", b, n))
-		e.sc.add(fmt.Sprintf("(assert (forall ((%s %s) (%s %s)) %s))", a, SI64, b, SI64, implies(and(reach, rng), not(lessBA))))
-		if name == "sort.SliceStable" {
-			e.sc.add(fmt.Sprintf("(assert (forall ((%s %s) (%s %s)) %s))", a, SI64, b, SI64, implies(and(reach, rng, not(lessAB)), app("bvslt", sel(P, a), sel(P, b)))))
-		}
+		e.sc.addTagged("sort", fmt.Sprintf("(assert (forall ((%s %s) (%s %s)) %s))", a, SI64, b, SI64, implies(and(reach, rng), not(lessBA))))
+		// (the stability of SliceStable is not modelled: nothing here relies on it)
 		return nil, reach, true
 	case "github.com/samber/lo.Map":
 		// Map(collection []T, iteratee func(T, int) R) []R : len equal, result[i] == f(c[i], i)
